@@ -44,14 +44,19 @@ theorem picked_found (pop : List Prov) (s : Slot) (v : Bytes) (a0 : Args) (hb : 
     ∀ c ∈ picked pop s v a0, ∃ p ∈ pop, p.id = c ∧ found s v a0 p = true :=
   fun c hc => mem_qualified_found pop s v a0 hb c (picked_subset_qualified pop s v a0 c hc)
 
-theorem picked_compat_nil (pop : List Prov) (hid : (pop.map (·.id)).Nodup) (s : Slot) (v : Bytes) (a0 : Args)
+theorem injAssignable_raw {k : Kind} {p : Prov} (h : p.inj = none) : injAssignable k p = assignable k p := by
+  simp [injAssignable, h]
+
+/-- no post-processor substitutes an object of another Go type (`hraw`): what was discovered by type is assignable -/
+theorem picked_compat_nil (pop : List Prov) (hid : (pop.map (·.id)).Nodup) (hraw : ∀ p ∈ pop, p.inj = none)
+    (s : Slot) (v : Bytes) (a0 : Args)
     (hb : ByType s v) : (picked pop s v a0).filter (incompatPred (byId pop) s.kind) = [] := by
   rw [List.filter_eq_nil_iff]
   intro c hc
   obtain ⟨p, hp, rfl, hf⟩ := picked_found pop s v a0 hb c hc
   unfold incompatPred
   rw [byId_of_mem hid hp]
-  simp [found_assignable hf]
+  simp [injAssignable_raw (hraw p hp), found_assignable hf]
 
 theorem selfRemoved_ne (holder : Nat) (l : List Nat) (hex : ∃ d ∈ l, d ≠ holder) :
     ∀ c ∈ selfRemoved holder l, c ≠ holder := by
@@ -92,7 +97,7 @@ theorem resolveOne_named (pop : List Prov) (hid : (pop.map (·.id)).Nodup) (hnm 
     (hk : (∃ t, s.kind = .ptr t) ∨ (∃ i, s.kind = .iface i))
     (hq : find a0 kQualifier = none) (hm : p ∈ pop) (hn : p.name = nm) :
     resolveOne pop s = some { cands := [p.id], slice := false, required := isRequired a0,
-                              incompat := if assignable s.kind p then [] else [p.id] } := by
+                              incompat := if injAssignable s.kind p then [] else [p.id] } := by
   have hs : s.kind.isSlice = false := by
     rcases hk with ⟨t, h⟩ | ⟨i, h⟩ <;> rw [h] <;> rfl
   have hadm : qualified pop s nm a0 = [p.id] := by
@@ -104,9 +109,9 @@ theorem resolveOne_named (pop : List Prov) (hid : (pop.map (·.id)).Nodup) (hnm 
     rw [hs, hadm, selfRemoved_single, choose_single]
     rfl
   rw [resolveOne_closed pop s nm a0 hp, hadm, hpk, hs]
-  have hi : incompatPred (byId pop) s.kind p.id = !assignable s.kind p := by
+  have hi : incompatPred (byId pop) s.kind p.id = !injAssignable s.kind p := by
     unfold incompatPred; rw [byId_of_mem hid hm]
-  cases ha : assignable s.kind p <;> simp [List.filter, hi, ha]
+  cases ha : injAssignable s.kind p <;> simp [List.filter, hi, ha]
 
 theorem resolveOne_empty (pop : List Prov) (s : Slot) (v : Bytes) (a0 : Args)
     (hp : parse? s.tag = some (v, a0)) (he : qualified pop s v a0 = []) :
